@@ -234,6 +234,8 @@ func checkC01(c *Ctx) {
 	c.Rule("C01.R5", "schema DDL executed at open lies inside one begin..commit function")
 	c.Rule("C01.R6", "bookkeeping rows stay single: every INSERT OR REPLACE / OR IGNORE / ON CONFLICT names a PRIMARY KEY / UNIQUE column of the table's DDL (or the rowid), so the conflict clause can fire instead of appending a row the single-row reader never sees")
 
+	c.Rule("C01.R9", "transaction control cannot be skipped: the context under which the COMMIT and ROLLBACK statements of the hand-rolled SQLite transactions execute — followed through parameters to every call site, through closures and local cells — is context.Background()/TODO()/WithoutCancel, never a request context or one with a deadline (database/sql does not send a statement whose context is done; the connection would return to the pool inside the open transaction and later writes on it would be acknowledged but never committed)")
+	checkTxControlContext(c, "C01.R9")
 	// R1
 	serve := p.Func("ingress", "(*Server).ServeHTTP")
 	if serve == nil {
